@@ -184,6 +184,10 @@ func (x *inst) Do(t int, op sim.Op) sim.Rec {
 		r.OK = x.r.IsEmpty()
 	case "IsFull":
 		r.OK = x.r.IsFull()
+	case "Cap":
+		// every exported method may be called while others run, also the trivial ones
+		r.V = x.r.Cap()
+		r.OK = true
 	case "Fresh":
 		// a ring created while the others are in use: it shares nothing with them.  The
 		// requested capacities vary (powers of two and not), like those of the main ring.
@@ -298,7 +302,7 @@ func validateFF(req int) bool {
 	return ok
 }
 
-var opNames = []string{"Push", "Pop", "Len", "IsEmpty", "IsFull", "PushWait", "PopWait", "Fresh"}
+var opNames = []string{"Push", "Pop", "Len", "IsEmpty", "IsFull", "PushWait", "PopWait", "Fresh", "Cap"}
 
 func gen(r *sim.Rng, tier string) *sim.Case {
 	maxT, maxOps := 4, 4
@@ -369,7 +373,7 @@ func gen(r *sim.Rng, tier string) *sim.Case {
 	}
 	scen := r.Pick(8, 1, 1) // general | pushers only | poppers only
 	c.Params["scenario"] = scen
-	w := []int{r.Range(1, 6), r.Range(1, 6), r.Range(0, 2), r.Range(0, 1), r.Range(0, 1), r.Range(0, 2), r.Range(0, 2), 0}
+	w := []int{r.Range(1, 6), r.Range(1, 6), r.Range(0, 2), r.Range(0, 1), r.Range(0, 1), r.Range(0, 2), r.Range(0, 2), 0, r.N(4) / 3}
 	if r.Pct(12) {
 		w[7] = 1 // a new ring is created (and used) while the others are in use
 	}
@@ -619,6 +623,10 @@ func check(run *enga.Run) *sim.Violation {
 						return v
 					}
 				}
+			case "Cap":
+				if r.Done && r.V != x.cap {
+					return &sim.Violation{Class: "cap_changed", Site: site + ".Cap", Detail: fmt.Sprintf("Cap() = %d while operations were running, %d before", r.V, x.cap)}
+				}
 			case "Len":
 				if r.V < 0 || r.V > x.cap {
 					return &sim.Violation{Class: "len_out_of_range", Site: site + ".Len", Detail: fmt.Sprintf("Len() = %d with Cap() = %d", r.V, x.cap)}
@@ -832,8 +840,8 @@ func check(run *enga.Run) *sim.Violation {
 				case "IsFull":
 					o.Input, o.Output = enga.QIn{Kind: enga.QFull}, enga.QOut{OK: r.OK}
 				}
-			case "Fresh":
-				continue // another ring: not part of this ring's history
+			case "Fresh", "Cap":
+				continue // another ring / a constant: not part of this ring's history
 			case "Drain":
 				if !r.Done {
 					continue
